@@ -45,6 +45,7 @@ def run(ck, m):
     cleanup_rule(ck, m)
     since_rule(ck, m)
     search_exits(ck, m)
+    scan_reads_every_field_each_round(ck, m)
 
 
 def _run(ck, m):
@@ -792,3 +793,31 @@ def search_exits(ck, m):
           'down to one record) the next record is at or after `since` and is never read — for a `since` between two record times the file '
           'contributes nothing to the catch-up' % bad, bad[0][0] if bad else '')
     ck.floor('C12.k', nexit, 2, 'exits of the search loop')
+
+
+def scan_reads_every_field_each_round(ck, m):
+    """C12.l — see RULES"""
+    from props.C07 import natural_loops
+    P = m.prog
+    ck.rule('C12.l', 'the record scan stays aligned: in every loop of the record reader each read of a record field lies on every way round the loop '
+                     '(it dominates the jump back to the loop head) — a `continue` that skips the read of the timestamp of the next record makes the next '
+                     'round decode the record one field off, and every later record of the file is dropped')
+    rbs = [b for b in P.user_bodies() if b.id.endswith('disk_ops::read_operations_since_from_file')]
+    if len(rbs) != 1:
+        ck.undecided('C12.l', 'reader', 'anchor', 'record reader not found')
+        return
+    rb = rbs[0]
+    n, bad = 0, []
+    for h, body in natural_loops(rb):
+        reads = [bi for bi in body if rb.term(bi)['k'] == 'call' and callee_decl(rb.term(bi)).startswith('std::io::Read::read')]
+        if not reads:
+            continue
+        n += 1
+        for u in [u for u in body if h in rb.succ(u)]:
+            for r in reads:
+                if not rb.dominates(r, u):
+                    bad.append('the read at %s is skipped by the way back to the loop head from %s' % (rb.loc(r), rb.loc(u)))
+    ck.ob('C12.l', short(rb.id), 'scan-reads-every-field-each-round', n > 0 and not bad,
+          'in the %d loops of the record reader every field read lies on every way round' % n if n > 0 and not bad else
+          '; '.join(sorted(set(bad))[:3]), '%s:%s' % (rb.file, rb.line))
+    ck.floor('C12.l', n, 1, 'loops of the record reader that read fields')
